@@ -86,11 +86,13 @@ pub struct Nla {
     stage: u8,
     /// keep listening after the final reply even if it was a forgery
     pub expect_credentials: bool,
+    /// NegotiateFlags bits the server clears in its CHALLENGE (a server is free to negotiate less)
+    pub challenge_flags_clear: u32,
 }
 
 impl Nla {
     pub fn new(nt_hash: [u8; 16], cssp_version: u64, challenge_cfg: ChallengeCfg) -> Nla {
-        Nla { nt_hash, cssp_version, challenge_cfg, results: Rc::new(RefCell::new(NlaResults::default())), final_reply: None, ts_mutator: None, neg: None, seal: None, stage: 0, expect_credentials: true }
+        Nla { nt_hash, cssp_version, challenge_cfg, results: Rc::new(RefCell::new(NlaResults::default())), final_reply: None, ts_mutator: None, neg: None, seal: None, stage: 0, expect_credentials: true, challenge_flags_clear: 0 }
     }
 }
 
@@ -163,7 +165,11 @@ impl NlaHandler for Nla {
                         return step;
                     }
                 };
-                let challenge = ntlm::build_challenge(&neg, &self.challenge_cfg);
+                let mut challenge = ntlm::build_challenge(&neg, &self.challenge_cfg);
+                if self.challenge_flags_clear != 0 && challenge.len() >= 24 {
+                    let f = u32::from_le_bytes([challenge[20], challenge[21], challenge[22], challenge[23]]) & !self.challenge_flags_clear;
+                    challenge[20..24].copy_from_slice(&f.to_le_bytes());
+                }
                 res.challenge_raw = challenge.clone();
                 self.neg = Some(neg);
                 let honest = ts(self.cssp_version, vec![challenge.clone()], None);
